@@ -13,6 +13,7 @@ CONSTANTS
   PerturbMode = "pure"
   HashMode = "ordered"
   SFSMode = "copies"
+  KernelMode = "stateless"
   MaxTable = 60
 SPECIFICATION Spec
 CHECK_DEADLOCK FALSE
